@@ -22,7 +22,7 @@ def call(f, *a): return ["call", V(f) if isinstance(f, str) else f, list(a)]
 def inv(o, m, *a): return ["invoke", o, m, list(a)]
 
 FORMS = ["whole", "renamed", "selected", "selected_renamed"]
-MODS = ["a", "b", "c"]
+MODS = ["a", "b", "c", "d"]
 
 
 def import_stmt(path, form, tag):
@@ -207,17 +207,18 @@ class C17(Check):
 
     def gen(self, tier):
         th = tier == "thorough"
-        for nmods in (1, 2, 3):
+        for nmods in ((1, 2, 3, 4) if th else (1, 2, 3)):
             for es in dags(nmods):
                 for subdir in (None, MODS[nmods - 1]):
                     # which modules main imports (non-empty subsets), in every order
                     for r in range(1, nmods + 1):
                         for targets in itertools.permutations(MODS[:nmods], r):
-                            forms_main = itertools.product(FORMS, repeat=r) if (th or r == 1) else [tuple(FORMS[(i + k) % 4] for k in range(r)) for i in range(4)]
+                            # (four modules, thorough only: all 64 DAGs and all ordered selections, forms rotated instead of multiplied out)
+                            forms_main = itertools.product(FORMS, repeat=r) if ((th and nmods < 4) or r == 1) else [tuple(FORMS[(i + k) % 4] for k in range(r)) for i in range(4)]
                             for fm in forms_main:
                                 eforms = [tuple(FORMS[(i + k) % 4] for k in range(len(es))) for i in (range(4) if es else [0])]
                                 for ef in eforms:
-                                    for dup in ((None,) if not th else (None, 0)) + ((0,) if not th and r == 1 else ()):
+                                    for dup in ((None,) if (not th or nmods == 4) else (None, 0)) + ((0,) if not th and r == 1 else ()):
                                         yield ("graph", nmods, tuple(es), ef, targets, fm, subdir, dup, None)
         # same-named modules below different packages and directories: every ordered selection of 2-3 (4 thorough) of 9 imports
         for r in ((2, 3, 4) if th else (2, 3)):
@@ -326,7 +327,7 @@ C17.judge_modfiber = _judge_modfiber
 def main(tier):
     t0 = time.time()
     chk = C17()
-    chk.rule = ("all DAGs over 1-3 modules (+ main), every non-empty ordered selection of main's imports, import forms (quick: all 4 for single imports, 4 rotations otherwise; thorough: full product), "
+    chk.rule = ("all DAGs over 1-3 modules (+ main; thorough also all 64 DAGs over 4 modules with every ordered selection of main's imports, forms rotated), every non-empty ordered selection of main's imports, import forms (quick: all 4 for single imports, 4 rotations otherwise; thorough: full product), "
                 "4 rotations of edge forms, with/without a sub-directory module, duplicate import with a second form, 7 negative families x 4 forms; "
                 "module bodies that launch fibers / block on channels x importer with 0-2 fibers of its own x 3 forms (body runs once, to its end, before the importer continues; interleaving of other fibers not compared); "
                 "same-named modules (std.math, self.math, self.dir.math, whole and selected, directly and through three importing modules): every ordered selection of 2-3 (4 thorough) of 9 imports; "
